@@ -418,6 +418,22 @@ func totalChild(args []string) int {
 	}
 	if !loadDone {
 		emit(ev)
+		// the same file as the personal notebook beside a good main file, through the combined loader
+		mainF := filepath.Join(dir, "good-main.yml")
+		os.WriteFile(mainF, []byte("- command: \"tar -czf x.tgz dir\"\n  description: \"Compress a directory\"\n  keywords: [compress]\n"), 0o644)
+		var perr error
+		evp := &totEv{Op: "loadp", Shape: shape, Text: text}
+		evp.Outcome, evp.Note, evp.MS = guarded(func() { _, perr = database.LoadDatabaseWithPersonal(mainF, p) })
+		if evp.Outcome == "returned" {
+			evp.Outcome = classifyLoadErr(perr, p)
+			if perr != nil {
+				evp.Note = perr.Error()
+				if len(evp.Note) > 200 {
+					evp.Note = evp.Note[:200]
+				}
+			}
+		}
+		emit(evp)
 	}
 	via := "yaml"
 	if db == nil || lerr != nil || len(db.Commands) == 0 {
